@@ -48,6 +48,8 @@ def randgraph(
         k = int(random.randint(1, max(1, i)) * connectivity)
         if ensurelink:
             k = max(k, 1)
+        # cannot link to more vertices than there are
+        k = min(k, count)
 
         adj[verts[i]] = random.sample(verts, k)
 
